@@ -1,9 +1,108 @@
-(* C20 -- one-worker peach with the REPAIRED dispatcher (broken re-tested after
-   Acquire): no callback is entered for an input that comes after one whose
-   callback broke or failed.  Invariants over the step relation, all schedules. *)
+(* C20 -- one-worker peach (broken re-tested after Acquire) behaves exactly like
+   each: same callbacks run, nothing starts after a break / failure, same output
+   sequence, same exceptions.  Invariants over the step relation, all schedules. *)
 From verif Require Import lib.Base model.C20_Peach proofs.C20_proofs.
 From Coq Require Import Permutation Arith.
 Open Scope nat_scope.
+
+(* ---- each, characterised by "no breaker before input i" ---- *)
+Definition nbb (cb : callback) (i : nat) : bool :=
+  forallb (fun j => negb (is_breaker (cb_kind (cb j)))) (seq 0 i).
+
+Lemma nbb_S cb i : nbb cb (S i) = nbb cb i && negb (is_breaker (cb_kind (cb i))).
+Proof. unfold nbb. rewrite seq_S, forallb_app. cbn. now rewrite andb_true_r. Qed.
+
+Lemma nbb_mono cb i k : i <= k -> nbb cb k = true -> nbb cb i = true.
+Proof.
+  induction 1 as [|k Hle IH]; [auto|]. rewrite nbb_S. intros H.
+  apply andb_true_iff in H as (H & _). now apply IH.
+Qed.
+
+Lemma nbb_spec cb i :
+  nbb cb i = true <-> forall j, j < i -> is_breaker (cb_kind (cb j)) = false.
+Proof.
+  unfold nbb. rewrite forallb_forall. split.
+  - intros H j Hj. apply negb_true_iff. apply H. apply in_seq. lia.
+  - intros H j Hj. apply in_seq in Hj. apply negb_true_iff. apply H. lia.
+Qed.
+
+Lemma each_broken cb k : e_broken (each_pre cb k) = negb (nbb cb k).
+Proof.
+  induction k as [|k IH]; [reflexivity|]. cbn [each_pre]. rewrite nbb_S, IH.
+  destruct (nbb cb k); cbn; [now rewrite negb_involutive|exact IH].
+Qed.
+
+Lemma each_out cb k :
+  e_out (each_pre cb k) = flat_map (fun i => if nbb cb i then cb_outs (cb i) else []) (seq 0 k).
+Proof.
+  induction k as [|k IH]; [reflexivity|]. cbn [each_pre]. rewrite seq_S, flat_map_app. cbn [flat_map Nat.add].
+  rewrite app_nil_r. pose proof (each_broken cb k) as Hb.
+  destruct (e_broken (each_pre cb k)).
+  - symmetry in Hb. apply negb_true_iff in Hb. rewrite Hb, app_nil_r. exact IH.
+  - symmetry in Hb. apply negb_false_iff in Hb. rewrite Hb. cbn. now rewrite IH.
+Qed.
+
+Lemma each_errs cb k :
+  e_errs (each_pre cb k) =
+  flat_map (fun i => if nbb cb i then fail_of (cb_kind (cb i)) else []) (seq 0 k).
+Proof.
+  induction k as [|k IH]; [reflexivity|]. cbn [each_pre]. rewrite seq_S, flat_map_app. cbn [flat_map Nat.add].
+  rewrite app_nil_r. pose proof (each_broken cb k) as Hb.
+  destruct (e_broken (each_pre cb k)).
+  - symmetry in Hb. apply negb_true_iff in Hb. rewrite Hb, app_nil_r. exact IH.
+  - symmetry in Hb. apply negb_false_iff in Hb. rewrite Hb. cbn. now rewrite IH.
+Qed.
+
+Lemma each_m cb k i : (i <? e_m (each_pre cb k)) = (i <? k) && nbb cb i.
+Proof.
+  induction k as [|k IH]; [reflexivity|]. cbn [each_pre].
+  pose proof (each_broken cb k) as Hb.
+  destruct (e_broken (each_pre cb k)).
+  - symmetry in Hb. apply negb_true_iff in Hb. rewrite IH.
+    destruct (Nat.ltb_spec i k) as [H1|H1], (Nat.ltb_spec i (S k)) as [H2|H2]; try lia; try reflexivity.
+    assert (i = k) by lia. subst. now rewrite Hb.
+  - symmetry in Hb. apply negb_false_iff in Hb. cbn [e_m].
+    destruct (Nat.ltb_spec i (S k)) as [H2|H2]; [|reflexivity].
+    rewrite (nbb_mono cb i k) by (lia || assumption). reflexivity.
+Qed.
+
+Lemma nbb_false_ex cb i :
+  nbb cb i = false -> exists k, k < i /\ is_breaker (cb_kind (cb k)) = true.
+Proof.
+  induction i as [|i IH]; [discriminate|]. rewrite nbb_S. intros H.
+  apply andb_false_iff in H as [H|H].
+  - destruct (IH H) as (k & Hk & Hb). exists k. split; [lia|assumption].
+  - exists i. split; [lia|]. now apply negb_false_iff in H.
+Qed.
+
+Lemma each_calls_spec cb n i : each_calls cb n i = if (i <? n) && nbb cb i then 1 else 0.
+Proof. unfold each_calls. now rewrite each_m. Qed.
+
+(* appending to the contribution of input i when every later input contributes nothing *)
+Lemma contrib_nil {St} (g : St -> nat -> list N) f l :
+  (forall j, In j l -> g (f j) j = []) -> contrib g f l = [].
+Proof.
+  unfold contrib. induction l as [|a l IH]; intros H; cbn [flat_map]; [reflexivity|].
+  rewrite H by (now left). rewrite IH; [reflexivity|]. intros; apply H; now right.
+Qed.
+
+Lemma contrib_upd_app_seq {St} (g : St -> nat -> list N) f i v xs n :
+  i < n -> g v i = g (f i) i ++ xs ->
+  (forall j, i < j -> j < n -> g (f j) j = []) ->
+  contrib g (upd f i v) (seq 0 n) = contrib g f (seq 0 n) ++ xs.
+Proof.
+  intros Hi Hg Hl.
+  assert (Hs : seq 0 n = seq 0 i ++ i :: seq (S i) (n - S i)).
+  { replace n with (i + S (n - S i)) at 1 by lia. rewrite seq_app. reflexivity. }
+  rewrite Hs. unfold contrib. rewrite !flat_map_app. cbn [flat_map].
+  change (flat_map (fun j => g (upd f i v j) j) (seq 0 i)) with (contrib g (upd f i v) (seq 0 i)).
+  change (flat_map (fun j => g (upd f i v j) j) (seq (S i) (n - S i))) with (contrib g (upd f i v) (seq (S i) (n - S i))).
+  rewrite !contrib_upd_notin by (rewrite in_seq; lia).
+  rewrite upd_same, Hg.
+  assert (Hz : contrib g f (seq (S i) (n - S i)) = []).
+  { apply contrib_nil. intros j Hj. apply in_seq in Hj. apply Hl; lia. }
+  unfold contrib in *. rewrite Hz. rewrite !app_nil_r. now rewrite !app_assoc.
+Qed.
 
 Section P1.
 Context (c : config) (cb : callback) (n : nat).
@@ -131,7 +230,7 @@ Qed.
 
 (* no callback is entered for an input after one whose callback broke or failed
    and returned: as in each *)
-Theorem peach1_no_callback_after_break_repaired s :
+Theorem peach1_no_callback_after_break s :
   reach c cb n s -> cancelled s = false ->
   forall i j, i < j -> posted (st s i) = true -> is_breaker (cb_kind (cb i)) = true ->
   calls s j = 0.
@@ -141,4 +240,234 @@ Proof.
   destruct (inv_reach c cb n s Hr) as (_ & Hcalls & _).
   rewrite Hcalls. destruct (Hcc Hc i j Hij Hpo Hbk) as [-> | ->]; reflexivity.
 Qed.
+
+(* g: once an input has been skipped every later one is pending or skipped *)
+Definition inv_g (s : state) : Prop :=
+  cancelled s = false -> forall j i, j < i -> st s j = Skipped ->
+  st s i = Pending \/ st s i = Skipped.
+
+Lemma g_step s l s' :
+  inv c cb n s -> inv_b s -> inv_g s -> step c cb n s l = Some s' -> inv_g s'.
+Proof.
+  intros Hinv Hb Hg H Hc' j i Hji Hsk.
+  destruct Hinv as ((Hpc & Hp & Hnp) & _ & _ & _ & _ & _ & (Hbs & _)).
+  step_inv H; cbn in *; try discriminate;
+  try (exact (Hg Hc' j i Hji Hsk));
+  try match goal with E : pc s = _ |- _ => rewrite E in * end; cbn in Hpc, Hp, Hnp;
+  unfold upd in *; revert Hsk;
+  match goal with |- context [i =? ?K] =>
+    destruct (Nat.eqb_spec i K) as [Ei|Ei]; destruct (Nat.eqb_spec j K) as [Ej|Ej] end;
+  intros Hsk; subst; try lia; try discriminate; auto;
+  try (exact (Hg Hc' _ _ Hji Hsk));
+  (* the earlier input is skipped now: everything later is still pending *)
+  try (left; apply Hp; lia);
+  (* the later input gets a worker although an earlier one was skipped: broken is set *)
+  try (exfalso; pose proof (Hbs _ Hsk) as Hbr;
+       match goal with Epc : pc s = DSpawn _ |- _ => rewrite (Hb Hc' _ Epc) in Hbr end; discriminate);
+  (* the later input's worker moved: it cannot exist *)
+  try (exfalso; pose proof (Hg Hc' _ _ Hji Hsk) as Hx;
+       match goal with E : st s _ = _ |- _ => rewrite E in Hx end; destruct Hx; discriminate).
+Qed.
+
+(* h: broken is set only by a callback that broke or failed and returned *)
+Definition inv_h (s : state) : Prop :=
+  cancelled s = false -> broken s = true -> exists k, posted (st s k) = true /\ brk k = true.
+
+Lemma posted_upd_keep (f : nat -> wstat) K X k :
+  posted (f k) = true -> (posted (f K) = false \/ posted X = true) -> posted (upd f K X k) = true.
+Proof.
+  intros Hk HK. unfold upd. destruct (Nat.eqb_spec k K) as [->|]; [|exact Hk].
+  destruct HK as [HK|HK]; [congruence|exact HK].
+Qed.
+
+Lemma h_step s l s' : inv c cb n s -> inv_h s -> step c cb n s l = Some s' -> inv_h s'.
+Proof.
+  intros Hinv Hh H Hc' Hbr.
+  destruct Hinv as ((Hpc & Hp & Hnp) & _).
+  step_inv H; cbn in *; try discriminate; try congruence;
+  try (exact (Hh Hc' Hbr));
+  try match goal with E : pc s = _ |- _ => rewrite E in * end; cbn in Hpc, Hp, Hnp;
+  (* the callback of a breaker returned: it is the witness if broken was clear *)
+  try (match goal with E : st s ?i = Running _ |- context [Posted] =>
+         destruct (broken s) eqn:Eb;
+         [ destruct (Hh Hc' Eb) as (kk & Hk1 & Hk2); exists kk; split; [|exact Hk2];
+           apply posted_upd_keep; [exact Hk1|left; rewrite E; reflexivity]
+         | exists i; split; [now rewrite upd_same|exact Hbr] ]
+       end);
+  (* otherwise the old witness is still posted *)
+  try (destruct (Hh Hc' Hbr) as (kk & Hk1 & Hk2); exists kk; split; [|exact Hk2];
+       apply posted_upd_keep; [exact Hk1|];
+       first [ right; reflexivity
+             | left; match goal with E : st s _ = _ |- _ => rewrite E end; reflexivity
+             | left; rewrite Hp by lia; reflexivity ]).
+Qed.
+
+(* So / Se: with one worker the shared output and the error list are in input order *)
+Definition inv_so (s : state) : Prop :=
+  cancelled s = false -> out s = contrib (emitted cb) (st s) (seq 0 n).
+Definition inv_se (s : state) : Prop :=
+  cancelled s = false -> errs s = contrib (reported cb) (st s) (seq 0 n).
+
+(* while input i has a live worker no later input has been given one *)
+Lemma later_not_spawned s i :
+  inv_e s -> cancelled s = false -> holder (st s i) = true ->
+  forall j, i < j -> st s j = Pending \/ st s j = Skipped.
+Proof.
+  intros He Hc Hh j Hij. destruct (spawned (st s j)) eqn:Es.
+  - exfalso. destruct (He Hc i j Hij Es) as [Hx|Hx]; rewrite Hx in Hh; discriminate.
+  - destruct (st s j); cbn in Es; try discriminate; auto.
+Qed.
+
+Lemma so_step s l s' :
+  inv c cb n s -> inv_e s -> inv_so s -> step c cb n s l = Some s' -> inv_so s'.
+Proof.
+  intros Hinv He Ho H Hc'. pose proof (later_not_spawned s) as Hl.
+  destruct Hinv as ((Hpc & Hp & Hnp) & _). unfold inv_so in Ho.
+  step_inv H; cbn [cancelled set_pc set_st set_held set_wg set_broken set_errs set_out set_calls
+                   set_cancelled set_panicked] in Hc'; try discriminate;
+  try (match goal with A : cancelled s = true, B : cancelled s = false |- _ =>
+         rewrite A in B; discriminate end);
+  (first [specialize (Ho Hc') | specialize (Ho eq_refl)]);
+  try match goal with E : pc s = _ |- _ => rewrite E in * end; cbn in Hpc, Hp, Hnp;
+  cbn [out errs st set_pc set_st set_held set_wg set_broken set_errs set_out set_calls
+       set_cancelled set_panicked]; try assumption;
+  first
+  [ rewrite contrib_upd_same; [assumption|];
+    first [ match goal with E : st s _ = _ |- _ => rewrite E end | rewrite Hp by lia ];
+    cbn [emitted]; first [reflexivity | symmetry; apply firstn_none_all; assumption]
+  | match goal with E : st s ?i = Running ?k, Hn : nth_error _ ?k = Some ?v |- _ =>
+      rewrite (contrib_upd_app_seq (emitted cb) (st s) i (Running (S k)) [v] n);
+      [ now rewrite Ho
+      | lia
+      | rewrite E; cbn [emitted]; apply firstn_succ_nth; assumption
+      | intros j Hij _; destruct (Hl i He Hc' ltac:(now rewrite E) j Hij) as [Hx|Hx];
+        rewrite Hx; reflexivity ]
+    end ].
+Qed.
+
+Lemma se_step s l s' :
+  inv c cb n s -> inv_e s -> inv_se s -> step c cb n s l = Some s' -> inv_se s'.
+Proof.
+  intros Hinv He Ho H Hc'. pose proof (later_not_spawned s) as Hl.
+  destruct Hinv as ((Hpc & Hp & Hnp) & _). unfold inv_se in Ho.
+  step_inv H; cbn [cancelled set_pc set_st set_held set_wg set_broken set_errs set_out set_calls
+                   set_cancelled set_panicked] in Hc'; try discriminate;
+  try (match goal with A : cancelled s = true, B : cancelled s = false |- _ =>
+         rewrite A in B; discriminate end);
+  (first [specialize (Ho Hc') | specialize (Ho eq_refl)]);
+  try match goal with E : pc s = _ |- _ => rewrite E in * end; cbn in Hpc, Hp, Hnp;
+  cbn [out errs st set_pc set_st set_held set_wg set_broken set_errs set_out set_calls
+       set_cancelled set_panicked]; try assumption;
+  first
+  [ rewrite contrib_upd_same; [assumption|];
+    first [ match goal with E : st s _ = _ |- _ => rewrite E end | rewrite Hp by lia ];
+    reflexivity
+  | match goal with E : st s ?i = Running ?k |- _ =>
+      rewrite (contrib_upd_app_seq (reported cb) (st s) i Posted (fail_of (cb_kind (cb i))) n);
+      [ now rewrite Ho
+      | lia
+      | rewrite E; reflexivity
+      | intros j Hij _; destruct (Hl i He Hc' ltac:(now rewrite E) j Hij) as [Hx|Hx];
+        rewrite Hx; reflexivity ]
+    end ].
+Qed.
+
+Definition inv2 (s : state) : Prop := inv_g s /\ inv_h s /\ inv_so s /\ inv_se s.
+
+Lemma inv2_reach s : reach c cb n s -> inv2 s.
+Proof.
+  induction 1 as [|s l s' Hr (Hg & Hh & Ho & Hs) H].
+  - repeat split; intro; intros; cbn in *; try discriminate; auto;
+      rewrite contrib_const_nil by reflexivity; reflexivity.
+  - pose proof (inv_reach c cb n s Hr) as Hinv.
+    destruct (inv1_reach s Hr) as (Ha & Hb & He & Hc).
+    repeat split.
+    + eapply g_step; eassumption.
+    + eapply h_step; eassumption.
+    + eapply so_step; eassumption.
+    + eapply se_step; eassumption.
+Qed.
+
+(* ---- when peach has returned: exactly the inputs each runs were run ---- *)
+Lemma done_calls s :
+  reach c cb n s -> cancelled s = false -> pc s = DDone ->
+  forall i, calls s i = if (i <? n) && nbb cb i then 1 else 0.
+Proof.
+  intros Hr Hc Hpc i.
+  pose proof (inv_reach c cb n s Hr) as Hinv.
+  destruct (inv1_reach s Hr) as (Ha & Hb & He & Hcc).
+  destruct (inv2_reach s Hr) as (Hg & Hh & _ & _).
+  pose proof (done_finished c cb n s Hinv Hpc) as Hfin.
+  destruct Hinv as ((_ & Hp & Hnp) & Hcalls & _ & _ & _ & _ & (Hsk & _)).
+  rewrite Hpc in Hp, Hnp. cbn in Hp, Hnp. rewrite Hcalls.
+  destruct (Nat.ltb_spec i n) as [Hi|Hi]; cbn [andb].
+  2:{ now rewrite Hp. }
+  destruct (nbb cb i) eqn:En.
+  - (* no breaker before i: it was not skipped *)
+    specialize (Hfin i Hi). destruct (st s i) eqn:Ei; cbn in Hfin |- *; try discriminate; try reflexivity.
+    exfalso. destruct (Hh Hc (Hsk i Ei)) as (k & Hk1 & Hk2).
+    assert (Hki : k < i).
+    { destruct (Nat.lt_trichotomy k i) as [|[->|Hgt]]; [assumption| |].
+      - rewrite Ei in Hk1. discriminate.
+      - destruct (Hg Hc i k Hgt Ei) as [Hx|Hx]; rewrite Hx in Hk1; discriminate. }
+    rewrite nbb_spec in En. unfold brk in Hk2. rewrite (En k Hki) in Hk2. discriminate.
+  - (* a breaker before i: i was never started *)
+    destruct (started (st s i)) eqn:Es; [|reflexivity]. exfalso.
+    destruct (nbb_false_ex cb i En) as (k & Hki & Hkb).
+    pose proof (Hfin k ltac:(lia)) as Hfk.
+    assert (Hx : st s i = Pending \/ st s i = Skipped).
+    { destruct (st s k) eqn:Ek; cbn in Hfk; try discriminate.
+      - exact (Hg Hc k i Hki Ek).
+      - apply (Hcc Hc k i Hki); [now rewrite Ek|exact Hkb].
+      - apply (Hcc Hc k i Hki); [now rewrite Ek|exact Hkb]. }
+    destruct Hx as [Hx|Hx]; rewrite Hx in Es; discriminate.
+Qed.
+
+(* with one worker, peach behaves exactly like each: same callbacks run (hence
+   nothing after a break / failure), same output sequence, same exceptions *)
+Theorem peach1_equiv_each_proved s :
+  reach c cb n s -> pc s = DDone -> cancelled s = false ->
+  (forall i, calls s i = each_calls cb n i)
+  /\ out s = e_out (each_pre cb n) /\ errs s = e_errs (each_pre cb n).
+Proof.
+  intros Hr Hpc Hc.
+  pose proof (done_calls s Hr Hc Hpc) as Hcalls.
+  pose proof (inv_reach c cb n s Hr) as Hinv.
+  pose proof (done_finished c cb n s Hinv Hpc) as Hfin.
+  destruct Hinv as (_ & Hcs & _).
+  destruct (inv2_reach s Hr) as (_ & _ & Ho & He).
+  assert (Hst : forall i, i < n -> started (st s i) = nbb cb i).
+  { intros i Hi. specialize (Hcalls i). rewrite Hcs in Hcalls.
+    apply Nat.ltb_lt in Hi. rewrite Hi in Hcalls. cbn in Hcalls.
+    destruct (started (st s i)), (nbb cb i); congruence. }
+  split; [|split].
+  - intros i. rewrite each_calls_spec. apply Hcalls.
+  - rewrite (Ho Hc), each_out. unfold contrib. apply flat_map_ext_in'.
+    intros i Hi. apply in_seq in Hi. specialize (Hst i ltac:(lia)). specialize (Hfin i ltac:(lia)).
+    rewrite <- Hst. destruct (st s i); cbn in *; congruence.
+  - rewrite (He Hc), each_errs. unfold contrib. apply flat_map_ext_in'.
+    intros i Hi. apply in_seq in Hi. specialize (Hst i ltac:(lia)). specialize (Hfin i ltac:(lia)).
+    rewrite <- Hst. unfold reported. destruct (st s i); cbn in *; congruence.
+Qed.
 End P1.
+
+(* the documented behaviour, for the code as it is now *)
+Theorem peach1_equiv_each : peach1_equiv_each_stmt (faithful (Some 1)).
+Proof.
+  intros cb n s Hr Hpc Hc.
+  exact (peach1_equiv_each_proved (faithful (Some 1)) cb n eq_refl eq_refl s Hr Hpc Hc).
+Qed.
+
+(* non-vacuity witness: callback 0 breaks, 3 inputs; the schedule that used to
+   start callback 1 (broken tested before blocking in Acquire) now skips it *)
+Definition w_cb : callback :=
+  fun i => if i =? 0 then mkCb [1%N] KBreak else mkCb [N.of_nat (100 * i + 1)] KNormal.
+Definition w_sched : list label :=
+  [LDisp; LDisp; LDisp; LDisp;   (* check 0, Acquire, re-test, go: worker 0 *)
+   LDisp;                        (* check 1: broken is still 0; now blocked in Acquire *)
+   LWork 0; LWork 0; LWork 0;    (* enter, output, return: broken := 1 *)
+   LWork 0; LWork 0;             (* wg.Done, Release *)
+   LDisp;                        (* Acquire succeeds *)
+   LDisp;                        (* re-test: broken, token given back, input 1 skipped *)
+   LDisp;                        (* check 2: skipped *)
+   LDisp; LDisp].                (* end of inputs, Wait *)
